@@ -227,11 +227,42 @@ def malformed(chk: Check, drv: Driver):
                         level = list(ordering).index(bad_dim)
                         reqs.append("ENCODE " + " ".join(sx(x) for x in ([Atom(m) for m in modes], list(ordering), list(dims), [[list(c), 1] for c in entries])))
                         meta.append((case, rejected, modes[level], t))
+    # wrong-length coordinates (theorem encode_short_coordinate): a coordinate shorter than the order
+    # fails the whole construction; a longer one is read through its leading components — model and
+    # code must agree on which requests are refused
+    n_len = 0
+    for order in (1, 2, 3):
+        fmts = all_formats(order)
+        for modes, ordering in rng.sample(fmts, min(len(fmts), 6)):
+            dims = tuple(rng.choice([2, 3]) for _ in range(order))
+            universe = list(itertools.product(*[range(d) for d in dims]))
+            for delta in (-order, -1, 1):
+                if order + delta < 0:
+                    continue
+                valid = rng.sample(universe, rng.randint(0, min(3, len(universe))))
+                base = [rng.randrange(d) for d in dims]
+                coord = base[: order + delta] if delta < 0 else base + [0] * delta
+                entries = [tuple(c) for c in valid]
+                entries.insert(rng.randint(0, len(entries)), tuple(coord))
+                vals = [1.0] * len(entries)
+                case = {"format": fmt_str(modes, ordering), "dims": list(dims), "coords": [list(c) for c in entries], "vals": vals, "wrong_length": delta}
+                n_len += 1
+                chk.case(("wrong-length", fmt_str(modes, ordering), delta))
+                rejected = False
+                try:
+                    Tensor.from_aos(entries, vals, dimensions=dims, format=_fmt_obj(modes, ordering))
+                except (ValueError, IndexError, OverflowError, TypeError):
+                    rejected = True
+                reqs.append("ENCODE " + " ".join(sx(x) for x in ([Atom(m) for m in modes], list(ordering), list(dims), [[list(c), 1] for c in entries])))
+                meta.append((case, rejected, None, None))
+    chk.count("wrong_length_cases", n_len)
     for (case, rejected, level_mode, t), r in zip(meta, drv.batch(reqs)):
         model_rejected = isinstance(r, list) and r and r[0] == "err"
         chk.corr("encode-malformed", 1, int(model_rejected != rejected))
         if model_rejected != rejected:
             chk.unproved_obligation("correspondence:encode-malformed", "model and code disagree on rejection", case)
+        if level_mode is None:
+            continue
         if not rejected:
             f = chk.match_known(lambda f: f.get("signature", {}).get("predicate") == "oob-on-dense-level" and level_mode == "d")
             if f:
